@@ -198,8 +198,8 @@ def unpivot_clauses(ctx):
         if isinstance(st, ast.Assign) and u(st.targets[0]) == "config['fields_to_keep']":
             preds_order.append(('keep', st.lineno))
         if isinstance(st, ast.Call) and isinstance(st.func, ast.Attribute) and st.func.attr in ('extend', 'append') \
-                and pseudo(st.func.value) == 'fields' and pseudo(st.args[0]) in ('extra_keys', 'extra_value'):
-            preds_order.append((pseudo(st.args[0]), st.lineno))
+                and pseudo(st.func.value) == 'fields' and st.args and (names_in(st.args[0]) & {'extra_keys', 'extra_value'}):
+            preds_order.append((sorted(names_in(st.args[0]) & {'extra_keys', 'extra_value'})[0], st.lineno))
     names = [n for n, _ in sorted(preds_order, key=lambda x: x[1])]
     run.check(names == ['keep', 'extra_keys', 'extra_value'], 'UNP', func.where, func.qualname,
               'fields_to_keep computed, then extra_keys, then extra_value appended',
